@@ -116,6 +116,14 @@ func genC06(r *Rng, n int, tier string, emit func(Case)) {
 		for j := 0; j < g.r.Range(1, 3); j++ {
 			doc = append(doc, g.node(g.r.Range(1, maxd))...)
 		}
+		ownMixins := false
+		if g.r.Chance(1, 6) {
+			ownMixins = true
+			// a mixin WITHOUT parameters (and one with), defined in the document and called between text: the body's pieces stand
+			// where the call stands, nothing in front of them, nothing behind
+			doc = append([]interface{}{nMixin("badge", nil, nTag("span", true, nil, nText("new"))), nMixin("note", []interface{}{"w"}, nText("("), nBuf(eId("w"), true), nText(")"))}, doc...)
+			doc = append(doc, nTag("p", false, nil, nText("a"), nCall("badge", nil, nil), nText("b"), nCall("note", []interface{}{eStr("n")}, nil), nText("c"), nCall("badge", nil, nil)))
+		}
 		data := J{"s": []string{"<&>", "plain", "{{x}}", " sp "}[g.r.Intn(4)], "n": g.r.Range(0, 3), "t": "T", "yes": true, "no": false,
 			"xs": []interface{}{"1", "{", "}}"}[:g.r.Range(0, 3)]}
 		c := Case{"kind": "render", "oracle": "pug", "doc": doc, "data": data, "bucket": "tree", "depth": exprDepth(doc), "what": "tree"}
@@ -129,7 +137,11 @@ func genC06(r *Rng, n int, tier string, emit func(Case)) {
 				mix := []interface{}{nMixin("card", []interface{}{"x"}, nTag("aside", false, nil, nText("Teaser {{ for }} "), nBuf(eId("x"), true))),
 					nCall("card", []interface{}{eStr("Sale")}, nil), nText("after ")}
 				c["siblings"] = []interface{}{mix, prevDoc, mix, mix}
-				c["doc"] = append(append([]interface{}{}, doc...), nText([]string{"end ", "end\n", "end \t ", " "}[g.r.Intn(4)]))
+				if !ownMixins {
+					// (a page that defines mixins itself has their definitions appended behind its last text, which costs that text
+					// its trailing white space - the very end of the document, not compared here)
+					c["doc"] = append(append([]interface{}{}, doc...), nText([]string{"end ", "end\n", "end \t ", " "}[g.r.Intn(4)]))
+				}
 				c["bucket"] = "tree+mixin-siblings"
 			}
 		}
